@@ -505,7 +505,9 @@ func runCheck(id, tier, filter string) int {
 	os.MkdirAll(filepath.Join(verifRoot, "evidence"), 0o755)
 	data, _ := json.MarshalIndent(ev, "", " ")
 	evPath := filepath.Join(verifRoot, "evidence", id+".json")
-	if filter == "" {
+	if filter == "" && totalPaths > 0 && totalDec > 0 {
+		// (a run that explored nothing - e.g. a harness build error - describes no coverage: the evidence
+		// of the last run that did is left in place; its verdict is on stdout and in the exit code)
 		os.WriteFile(evPath, data, 0o644)
 	}
 	for _, l := range vlines {
